@@ -320,6 +320,27 @@ func runC12Engine(env *Env) {
 		sent = append(sent, m)
 		stream = append(stream, m...)
 	}
+	// In a share of the runs one header in the stream is damaged (unusable BodyLength). The reference is the
+	// parser itself on the whole stream in one read: the read loop must hand on exactly those frames,
+	// however the bytes arrive (it ends at the first parser error).
+	if len(sent) >= 2 && ch.Chance("enginedamage", 1, 3) {
+		k := 1 + ch.Choose("damagedmsg", len(sent)-1)
+		off := 0
+		for j := 0; j < len(stream); j++ {
+			if bytes.HasPrefix(stream[j:], sent[k]) {
+				off = j
+			}
+		}
+		if i := bytes.Index(stream[off:], []byte("\x019=")); i >= 0 {
+			at := off + i + 3
+			end := at + bytes.IndexByte(stream[at:], 1)
+			repl := []string{"0", "-5", "", "12x", "x"}[ch.Choose("lenrepl", 5)]
+			stream = append(append(append([]byte(nil), stream[:at]...), repl...), stream[end:]...)
+			ref, _ := frameAll(bytes.NewReader(stream))
+			sent = ref
+			env.Stat("fault_damaged_header_through_read_loop")
+		}
+	}
 	r := c12Schedule(env, len(stream))
 	env.Note("engine configuration: %d messages, %d bytes, chunks %v", n, len(stream), r.chunks)
 	pos, i := 0, 0
@@ -331,6 +352,9 @@ func runC12Engine(env *Env) {
 		}
 		if k > len(stream)-pos {
 			k = len(stream) - pos
+		}
+		if p.EP.IsClosed() {
+			break
 		}
 		p.EP.Feed(stream[pos : pos+k])
 		pos += k
